@@ -78,6 +78,17 @@ CLAIMED = {
         technique="static analysis: normalised loop descriptors, sibling agreement, resolved-callee argument pass-through, "
         "finite-domain abstract interpretation over clang CFG",
     ),
+    "C16": dict(
+        text="Static analysis of the current source. Decides: the per-scatter-point estimate is invariant under exchanging the two "
+        "detectors (closed-form algebra with sympy on the returned expression with locals inlined, and on every early-return guard); it is "
+        "homogeneous of degree 1 in the two activity line integrals, vanishes for zero activity consistently with the early return, and "
+        "the activity enters nowhere else; both cached accessors compute a miss by the uncached function with the same arguments, store "
+        "that value in the cell addressed by the same two indices and return it; every public setter clears _already_set_up, every "
+        "function replacing an input of a cache drops that cache, process_data requires set-up. NOT decided: non-negativity, numerical "
+        "equality with a freshly configured simulation.",
+        technique="static analysis: closed-form algebra (sympy) on extracted expression DAGs, sibling agreement, setter/cache invalidation "
+        "must-pass-through",
+    ),
 }
 
 NOT_APPLICABLE = {
